@@ -103,7 +103,59 @@ pub fn generate(prop: &str, tier: &str, r: &mut Rng, out: &mut Vec<String>) -> G
         }
         "C18" => {
             crate::gen2::option_texts(out, r, if thorough { 300_000 } else { 5_000 });
-            GenInfo { rule: "option value texts of every class: true/false and near misses, decimal integers with signs, leading zeros, the i32 boundaries and beyond, non-ASCII digits, embedded spaces and letters, arbitrary UTF-8 keywords, values containing '='; non-trivial = distinct texts".into(), exhaustive: false }
+            {
+                // the real binary against the scripted printer
+                let runs = if thorough { 400 } else { 40 };
+                let opt_texts = ["copies=2", "fit=true", "sides=two-sided-long-edge", "a=b=c", "noequals", "x=-17", "big=99999999999", "e=", "q=+5", "draft=false", "media=iso_a4_210x297mm", "t=True"];
+                for i in 0..runs {
+                    let mut rr = r.fork();
+                    let mut a: Vec<String> = vec![];
+                    let no_check = i % 4 == 3;
+                    a.push(format!("(n {})", no_check as u8));
+                    a.push(format!("(f {})", (i % 2) as u8));
+                    if rr.chance(1, 2) {
+                        a.push(format!("(j {})", hex(format!("job {}", rr.below(1000)).as_bytes())));
+                    }
+                    if rr.chance(1, 2) {
+                        a.push(format!("(u {})", hex(*rr.pick(&["alice".as_bytes(), "bob smith".as_bytes(), "é".as_bytes()]))));
+                    }
+                    for _ in 0..rr.below(4) {
+                        a.push(format!("(o {})", hex(rr.pick(&opt_texts).as_bytes())));
+                    }
+                    let dlen = match rr.below(5) { 0 => 0, 1 => 1, 2 => rr.range(2, 500) as usize, 3 => rr.range(500, 70_000) as usize, _ => if thorough { rr.range(1 << 20, 3 << 20) as usize } else { rr.range(70_000, 300_000) as usize } };
+                    let doc = rr.bytes(dlen);
+                    // printer behaviour
+                    let gpa = |rr: &mut Rng| -> String {
+                        match rr.below(8) {
+                            0 => "(http)".to_string(),
+                            k => {
+                                let status: u16 = if k == 1 { *rr.pick(&[0x0400u16, 0x0507, 0x0503]) } else { *rr.pick(&[0u16, 0, 1, 2]) };
+                                let state = *rr.pick(&[3i32, 4, 5, 3, 4]);
+                                let mut attrs = vec![("printer-state".to_string(), ipp::prelude::IppValue::Enum(state))];
+                                match rr.below(4) {
+                                    0 => {}
+                                    1 => attrs.push(("printer-state-reasons".into(), ipp::prelude::IppValue::Keyword((*rr.pick(&["none", "paused", "media-low", "toner-empty"])).to_string()))),
+                                    _ => attrs.push(("printer-state-reasons".into(), ipp::prelude::IppValue::Array(vec![
+                                        ipp::prelude::IppValue::Keyword("media-low".into()),
+                                        ipp::prelude::IppValue::Keyword((*rr.pick(&["none", "door-open", "toner-low", "shutdown"])).to_string()),
+                                    ]))),
+                                }
+                                show_msg(&Msg { version: 0x0101, op: status, id: 1, groups: vec![(1, vec![("attributes-charset".into(), ipp::prelude::IppValue::Charset("utf-8".into()))]), (4, attrs)] })
+                            }
+                        }
+                    };
+                    let pj = |rr: &mut Rng| -> String {
+                        match rr.below(6) {
+                            0 => "(http)".to_string(),
+                            1 => show_msg(&Msg { version: 0x0101, op: *rr.pick(&[0x0400u16, 0x0507, 0x040a]), id: 1, groups: vec![(1, vec![])] }),
+                            _ => show_msg(&Msg { version: 0x0101, op: *rr.pick(&[0u16, 0, 1]), id: 1, groups: vec![(1, vec![]), (2, vec![("job-id".into(), ipp::prelude::IppValue::Integer(rr.below(100) as i32)), ("job-state".into(), ipp::prelude::IppValue::Enum(3))])] }),
+                        }
+                    };
+                    let answers = if no_check { pj(&mut rr) } else { format!("{} {}", gpa(&mut rr), pj(&mut rr)) };
+                    out.push(format!("cli (args {}) {} (answers {})", a.join(" "), hex(&doc), answers));
+                }
+            }
+            GenInfo { rule: "the real ipputil binary against a scripted loopback printer (file or standard input from 0 B to hundreds of KB – MiBs thorough –, optional job and user names, 0-3 options of every textual class incl. values containing '=' and options without '=', -n on/off; printer answers: state idle/processing/stopped, reasons single/set with blocking words, IPP error statuses, HTTP errors for either exchange): requests received and exit status compared with the model; plus option value texts of every class: true/false and near misses, decimal integers with signs, leading zeros, the i32 boundaries and beyond, non-ASCII digits, embedded spaces and letters, arbitrary UTF-8 keywords, values containing '='; non-trivial = distinct texts".into(), exhaustive: false }
         }
         "C13" => {
             let n = if thorough { 500_000 } else { 5_000 };
